@@ -56,16 +56,11 @@ ASSUMPTIONS = [
 ]
 EXHAUSTIVE = {'quick': False, 'thorough': False}
 
-# trigger regions of defects that are not yet repaired in /repo (found and owned by C13, see
-# /verif/proposed_fixes/C13_copy_layer_to_x_sparse_*.diff, C13_h5_copy_zero_length_chunked_dataset.diff, and for the
-# validation-specific part /verif/proposed_fixes/C16_is_sparse_x_integers_no_stored_value.diff).
-# Remove a name once its fixes are applied.
-UNREPAIRED = {
-    'sparse_matrix_without_stored_value',
-    'sparse_arrays_contiguous',
-    'float32_extreme_at_int32_uint32_edge',
-    'renamed_gene_name_contains_slash',
-}
+# Trigger regions of defects that are not yet repaired in /repo: they are removed from the search (and counted) so that it
+# continues behind them.  Remove a name once its fix from /verif/proposed_fixes/C16_<name>.diff is applied - the replay in
+# /verif/regressions/C16 then guards it.  ('sparse_matrix_without_stored_value' and 'sparse_arrays_contiguous' - D10, repaired
+# through the C13 fixes 589b65c, fbc4188, 5f252ee - stay in KNOWN_TRIGGERS only for their regression files.)
+UNREPAIRED = set()   # two repairs applied in /repo; 'renamed_gene_name_contains_slash' is a recorded known finding (known_findings.json)
 
 
 def budget(tier):
@@ -90,6 +85,13 @@ def _t_sparse_contiguous(spec):
     return spec['enc'] in ('csr', 'csc') and spec['layout'] == 'contiguous'
 
 
+def _t_is_sparse_empty_contiguous(spec):
+    """_is_sparse_x_integers on a float 'data' array of length zero that is stored contiguously (chunks None -> step 0);
+    pbt.materialize.rechunk_h5ad writes zero-length arrays contiguously, anndata itself writes them chunked"""
+    return (spec['enc'] in ('csr', 'csc') and spec['round'] and np.dtype(spec['x']['dtype']).kind == 'f'
+            and spec['layout'] != 'default' and _nnz(spec) == 0)
+
+
 def _t_float32_edge(spec):
     """choose_int_dtype compares a float32 extreme with the integer limits in float32: 2^32 passes for '<= 4294967295'
     (uint32 chosen, min >= 0) and 2^31 for '<= 2147483647' (int32 chosen, -2^31 <= min < 0) -> the value wraps"""
@@ -110,6 +112,7 @@ def _t_slash(spec):
 KNOWN_TRIGGERS = {
     'sparse_matrix_without_stored_value': _t_sparse_empty,
     'sparse_arrays_contiguous': _t_sparse_contiguous,
+    'is_sparse_x_integers_no_stored_value': _t_is_sparse_empty_contiguous,
     'float32_extreme_at_int32_uint32_edge': _t_float32_edge,
     'renamed_gene_name_contains_slash': _t_slash,
 }
